@@ -172,6 +172,15 @@ def c08_suites(ctx, wrappers=True):
         meta.append((pat, kind))
     suites.append({"kind": "bin_explicit", "name": "bin/random", "cases": cases, "patterns": dict(collections.Counter(m[0] for m in meta)),
                    "pools": dict(collections.Counter(m[1] for m in meta))})
+    # the same kind of pairs handed over in another FORM (non-contiguous uint32 views, read-only arrays)
+    for form in ("strided", "column", "readonly"):
+        fc = []
+        for _ in range(60 if quick else 300):
+            pat, kind, L, R = gen_pair(rng, maxlen=24)
+            for op in ops:
+                fc.append([op, L, R, False])
+        suites.append({"kind": "bin_explicit", "name": "bin/form-" + form, "cases": fc, "form": form,
+                       "patterns": {"form:" + form: len(fc)}, "pools": {}})
     lop = gen_lopsided(rng, quick)
     suites.append({"kind": "bin_explicit", "name": "bin/lopsided", "cases": [[op, L, R, False] for L, R in lop for op in ops],
                    "patterns": {"long-vs-short": len(lop)}, "pools": {}})
